@@ -23,6 +23,7 @@
 #include <cmath>
 #include <cstddef>
 #include <limits>
+#include <random>
 #include <type_traits>
 
 namespace hep
@@ -35,19 +36,28 @@ inline std::size_t random_number_usage()
 {
     using S = typename std::remove_reference<R>::type;
 
-    // the number of random bits
-    std::size_t const b = std::numeric_limits<T>::digits;
+    // ask the standard library instead of mirroring its formula: implementations differ in how
+    // they round the logarithm of the range, e.g. for ranges of exactly 2^7 or 2^53
+    struct counting_engine
+    {
+        using result_type = typename S::result_type;
 
-    // the number of different numbers the generator can generate
-    long double const r = static_cast <long double> (S::max())
-        - static_cast <long double> (S::min()) + 1.0L;
+        static constexpr result_type min() { return S::min(); }
+        static constexpr result_type max() { return S::max(); }
 
-    // the number of bits needed to hold the value of 'r'
-    std::size_t const log2r = std::log2(r);
+        result_type operator()()
+        {
+            ++count;
+            return S::min();
+        }
 
-    std::size_t const k = std::max<std::size_t>(1, (b + log2r - 1UL) / log2r);
+        std::size_t count = 0;
+    };
 
-    return k;
+    counting_engine engine;
+    std::generate_canonical<T, std::numeric_limits<T>::digits>(engine);
+
+    return engine.count;
 }
 
 inline std::size_t discard_before(std::size_t total_calls, std::size_t rank, std::size_t world)
